@@ -384,6 +384,9 @@ def run(ctx):
     rep.floor('R-NEST-SAME', n_calls, 10)
     rule_strip_provenance(ctx, rep)
     rule_content_rows(ctx, rep)
+    # a container that wraps a text is there: its constructor yields a token on every path
+    from . import c12
+    c12.rule_new_fresh(ctx, rep)
     rule_marker_arith(ctx, rep)
     # "recursive tokenization of the stripped lines with the parent's start line": the line bookkeeping of the
     # nested calls and of what the nested tokenizer builds from it is shared with C13
